@@ -146,6 +146,23 @@ def main():
     for c, r in zip(cases, results):
         v.add(c, r, sample_view=c if c["kind"] == "graph" else {"samples": c["models"][0][1][:2], "merge": c["opts"]["merge"]})
         ngraph += c["kind"] == "graph"
+    if tier() == "thorough":
+        # the repository's own test suite as one more workload, run under the merge monitor (pytest plugin)
+        import re
+        import subprocess
+        from ..common import PY, REPO, VERIF, child_env
+        r = subprocess.run([PY, "-m", "pytest", "-q", "-p", "no:cacheprovider", "-p", "j2mverif.pytest_plugin", "-x", "--timeout=900"],
+                           cwd=REPO, env=child_env(), capture_output=True, text=True, timeout=3600)
+        m = re.search(r"j2mverif monitors: merge_models calls=(\d+) groups=(\d+) ptrs_checked=(\d+) violations=(\d+)", r.stdout)
+        case = {"kind": "repo-test-suite-under-monitor"}
+        if not m:
+            v.add(case, {"status": "inconclusive", "why": "monitor summary line not found in the pytest output", "witnesses": []})
+        else:
+            calls, groups, ptrs, nviol = map(int, m.groups())
+            wit = [{"property": PROP, "mechanism": "repo-suite:" + ln.split(":")[0].split()[-1], "msg": ln.strip()[:500]}
+                   for ln in r.stdout.split("\n") if ln.strip().startswith("MERGE-MONITOR")]
+            v.add(case, {"status": "violated" if wit else "held", "witnesses": wit[:5], "nontrivial": True, "digest": "repo-suite",
+                         "counters": {"repo_suite_merge_calls": calls, "repo_suite_groups": groups, "repo_suite_ptrs_checked": ptrs}})
     v.extra["graph_cases"] = ngraph
     v.extra["graphs_n_le_5_exhaustive"] = True
     v.extra["graphs_n6_exhaustive"] = tier() == "thorough"
